@@ -100,16 +100,42 @@ def run(ctx):
             pts = sorted(x for x in pts if abs(x) <= m)
             for off in range(0, len(pts), 40):
                 W.append({'p': p, 'xs': [m] + pts[off:off + 40], 'kind': 'w:boundary', 'exact': True})
+    # ---------------- weights: the SAME parameter object quantized again after its values were changed through .data
+    # (in-place ops on .data / re-assignment of .data do not bump the autograd version counter; the library itself does
+    # this in compensate_weights_values): the second call must quantize the NEW values
+    for i in range(60 if ctx.quick else 600):
+        p = ctx.rng.choice([2, 3, 4, 8])
+        n = ctx.rng.randint(2, 12)
+        kind, xs = gen_channel(ctx.rng, n)
+        xs = [f32(v * ctx.rng.choice([1.0, 4.0, 64.0])) for v in xs]
+        first = [f32(ctx.rng.uniform(-1, 1) * 2.0 ** ctx.rng.randint(-6, 2)) for _ in xs]
+        W.append({'p': p, 'xs': xs, 'kind': 'w:reused-parameter:' + kind, 'exact': False, 'first': first, 'route': ctx.rng.choice(['mul_', 'copy_', 'assign'])})
     for c in W:
         x = torch.tensor(c['xs'], dtype=torch.float32).view(1, -1)
         qi = MinMaxWeight(c['p'], 1, dequantize=False)
         qf = MinMaxWeight(c['p'], 1, dequantize=True)
-        yi = qi(x.clone())[0].tolist()
-        yf = qf(x.clone())[0].tolist()
+        if 'first' in c:
+            outs = []
+            for q in (qi, qf):
+                w = torch.nn.Parameter(torch.tensor(c['first'], dtype=torch.float32).view(1, -1))
+                q(w)                                            # first call on the old values
+                if c['route'] == 'assign':
+                    w.data = x.clone()
+                elif c['route'] == 'copy_':
+                    w.data.copy_(x)
+                else:
+                    w.data.mul_(0.0).add_(x)
+                outs.append(q(w)[0].tolist())
+            yi, yf = outs
+        else:
+            yi = qi(x.clone())[0].tolist()
+            yf = qf(x.clone())[0].tolist()
         sc = float(qi.scale.view(-1)[0])
         c.update(codes=yi, fq=yf, scale=sc)
         p = c['p']
         info = {'quantizer': 'MinMaxWeight', 'bits': p, 'channel': c['xs'], 'int_out': yi, 'fq_out': yf, 'scale': sc}
+        if 'first' in c:
+            info.update(first_call_values=c['first'], route=c['route'], note='same Parameter object quantized first on first_call_values, then its .data changed to channel')
         oracle(all(math.isfinite(v) and v == int(v) for v in yi) and math.isfinite(sc), 'wq-not-integer-or-not-finite', info)
         if p == 0:
             oracle(all(v == 0 for v in yi) and all(v == 0 for v in yf), 'wq-0bit-not-zero', info)
@@ -281,7 +307,23 @@ def replay(r):
         print('replayed int output:', q(torch.tensor(c['inputs'])).tolist(), 'scale', float(q.scale))
     elif c.get('quantizer') == 'MinMaxWeight':
         q = MinMaxWeight(c['bits'], 1, dequantize=False)
-        print('replayed int output:', q(torch.tensor(c['channel']).view(1, -1)).tolist(), 'scale', q.scale.tolist())
+        x = torch.tensor(c['channel'], dtype=torch.float32).view(1, -1)
+        if 'first_call_values' in c:
+            w = torch.nn.Parameter(torch.tensor(c['first_call_values'], dtype=torch.float32).view(1, -1))
+            q(w)
+            if c['route'] == 'assign':
+                w.data = x.clone()
+            elif c['route'] == 'copy_':
+                w.data.copy_(x)
+            else:
+                w.data.mul_(0.0).add_(x)
+            x = w
+        y = q(x)[0].tolist()
+        print('replayed int output:', y, 'scale', q.scale.tolist())
+        pbits = c['bits']
+        ok = all(v == int(v) for v in y) and (all(v == 0 for v in y) if pbits == 0 else all(-2 ** (pbits - 1) <= v <= 2 ** (pbits - 1) - 1 for v in y))
+        print('required: integers within the signed range of', pbits, 'bits ->', 'holds' if ok else 'VIOLATED')
+        return 0 if ok and y == c.get('int_out', y) else 1
     elif c.get('quantizer') == 'QuantizerBias':
         q = QuantizerBias(32, len(c['bias']), dequantize=False)
         print('replayed int output:', q(torch.tensor(c['bias']), torch.tensor(c['s_a']), torch.tensor(c['s_w'])).tolist())
